@@ -20,9 +20,36 @@ def _imports():
     return Bid, Contract, Player, Vul, score
 
 
+_BLOCKED = [0]
+
+
+def _guarded(fn, *a):
+    """fn(*a) with a watchdog: a call that does not return (a lock left held by
+    an earlier call, a loop that does not end) is a result like any other -
+    the scoring functions are pure arithmetic and return at once."""
+    import threading
+    box: list = []
+
+    def work():
+        try:
+            box.append(('ok', fn(*a)))
+        except BaseException as ex:  # noqa
+            box.append(('exc', ex))
+    t = threading.Thread(target=work, daemon=True)
+    t.start()
+    t.join(30.0 if _BLOCKED[0] == 0 else 0.2 if _BLOCKED[0] < 5 else 0.01)
+    if not box:
+        _BLOCKED[0] += 1
+        raise TimeoutError('the call did not return (blocked)')
+    kind, val = box[0]
+    if kind == 'exc':
+        raise val
+    return val
+
+
 def _call(fn, *a):
     try:
-        r = fn(*a)
+        r = _guarded(fn, *a)
         if isinstance(r, bool) or not isinstance(r, int):
             try:
                 import numpy as np
@@ -261,6 +288,15 @@ def imp_events(tier: str, r) -> List[Dict[str, Any]]:
         e = {'tid': f'd{d}', 'ev': 'imp', 'd': d}
         e.update(_call(f, d))
         evs.append(e)
+    # calls that are (rightly) refused - not an integer at all - come in between:
+    # nothing is claimed about THEM, but every conversion of an integer
+    # afterwards must still be answered
+    for bad in (None, '120', [], object()):
+        for fn_, args in ((f, (bad,)), (g, (bad, 100)), (g, (100, bad))):
+            try:
+                _guarded(fn_, *args)
+            except BaseException:  # noqa
+                pass
     for d in range(lim, -lim - 1, -7):          # again, downwards (call-order dependence)
         e = {'tid': f'u{d}', 'ev': 'imp', 'd': d}
         e.update(_call(f, d))
